@@ -69,7 +69,7 @@ def TU(name, op, nlen, idx=None, **kw):
           "verif_memmove_w.0:%d" % (lm + 2), "verif_memmove_w.1:%d" % (lm + 2), "Tuple_Sort_Part:%d" % (nlen + 1), "Tuple_Sort_Partition.0:%d" % (nlen + 2), "Tuple_Rem.0:%d" % (nlen + 2)]
     defs = ["OP=%s" % op, "NLEN=%d" % nlen, "VCW=24", "VCW_BLOCKS=3"] + (["IDXC=%d" % idx] if idx is not None else [])
     return Ob("tuple.%s.n%d%s" % (name, nlen, "" if idx is None else ".i%d" % idx), "C04/tuple_step.c", defs=defs, replace=["Tuple.c"], srcs_extra=["env_vcapw.c"],
-              unwind=lm + 2, unwindset=us, checks=["bounds", "pointer"], tiers=("quick", "thorough"), timeout=900, mem_gb=16 if name == "rem" else 6, backend="cadical" if name == "mem" else None, **kw)
+              unwind=lm + 2, unwindset=us, checks=["bounds", "pointer"], tiers=("quick", "thorough"), timeout=900, mem_gb=16 if name == "rem" else 8 if name in ("sort", "resize", "concat") else 4, backend="cadical" if name == "mem" else None, **kw)
 TOPS = [("push", "OP_PUSH"), ("pop", "OP_POP"), ("push_at", "OP_PUSH_AT"), ("pop_at", "OP_POP_AT"), ("getset", "OP_GETSET"), ("rem", "OP_REM"), ("mem", "OP_MEM"), ("concat", "OP_CONCAT"),
         ("resize", "OP_RESIZE"), ("sort", "OP_SORT"), ("iter", "OP_ITER"), ("bad_index", "OP_BAD_INDEX"), ("mark", "OP_MARK")]
 TUPLE = [TU("pop_empty", "OP_POP_EMPTY", 0)]
@@ -115,6 +115,13 @@ for o_ in TUPLE:
     if o_.name == "tuple.sort.n3":
         o_.tiers = ("thorough",); o_.mem_gb = 20; o_.timeout = 3600
 OBLIGATIONS += TUPLE + LIST
+# the quick tier has to finish well inside 15 minutes: length / index cases that repeat a neighbouring case's code paths run in the thorough tier only
+import re as _re
+_TONLY = [r"array\.resize\.n(0|1|3)$", r"array\.(push_at|pop_at)\.n(0|1|3)\.", r"array\.pop_at\.n4\+1\.", r"array\.(concat|assign)\.n(0|1|3)\.", r"tuple\.(assign|cmphash)\.n(0|1)m",
+          r"tuple\.(push_at|pop_at)\.n1\.", r"tuple\.(resize|concat)\.n(0|1|3)$", r"list\.(concat|assign)\.n(0|1|3)\."]
+for o_ in OBLIGATIONS:
+    if "quick" in o_.tiers and any(_re.search(x_, o_.name) for x_ in _TONLY):
+        o_.tiers = ("thorough",)
 LEVEL_TEXT = ("Bounded model checking of the real Array.c, List.c and Tuple.c: every operation as an inductive step from an arbitrary valid state (symbolic element values, duplicates, spare capacity) "
               "against a reference sequence, one obligation per pre-state length 0..3 (and per index for the element-shifting operations, per operand length for concat/assign).")
 LEVEL_NOTE = ("Trusted: cbmc; probe element callbacks (eq/cmp/assign/destruct/swap) with an ownership ledger; storage malloc/realloc/free replaced by the fixed-capacity model lib/env_vcapw.c. "
